@@ -46,6 +46,21 @@ type Box struct {
 	tmu   sync.RWMutex
 	head  atomic.Pointer[tree]
 	dr    error
+	inner
+}
+
+// a part of the guarded state grouped into an embedded struct with its own method
+type inner struct {
+	imu sync.Mutex
+	cnt int
+	tr  *tree
+}
+
+func (i *inner) bump(t *tree) {
+	i.imu.Lock()
+	i.cnt++
+	i.tr = t
+	i.imu.Unlock()
 }
 
 func New() *Box {
@@ -94,6 +109,9 @@ func (b *Box) Work(k int) (int, error) {
 	b.tmu.Lock()
 	b.index = tmp
 	b.tmu.Unlock()
+	b.bump(tmp)
+	b.inner.cnt++
+	b.n += b.cnt + len(b.tr.vals)
 
 	h := b.head.Load().Clone()
 	h.Add(k)
@@ -182,8 +200,10 @@ func TestInstrumentedProgramBehavesLikeTheOriginal(t *testing.T) {
 
 	want := run("run", "-tags", "verif", ".")
 
-	inst := filepath.Join(t.TempDir(), "box_instrumented.go")
-	if out, err := exec.Command(bin, "-repo", dir, "-file", "p/box.go", "-type", "Box", "-out", inst,
+	outdir := t.TempDir()
+	inst := filepath.Join(outdir, "box_instrumented.go")
+
+	if out, err := exec.Command(bin, "-repo", dir, "-file", "p/box.go", "-type", "Box", "-outdir", outdir,
 		"-sched", "example.com/m/sched").CombinedOutput(); err != nil {
 		t.Fatalf("instr: %v\n%s", err, out)
 	}
@@ -213,9 +233,15 @@ func TestInstrumentedProgramBehavesLikeTheOriginal(t *testing.T) {
 		`sched.Obj(tmp, "=").vals = `, // write through a tracked object
 		"b.index = sched.Put(6, tmp)",
 		`sched.Obj(t, "Add").Add(k + i)`,                               // parameter of the pointer field's type
-		`sched.Obj(sched.ALoad(7, 2, b.head.Load()), "Clone").Clone()`, // atomic pointer: pseudo lock 2 = after Mutex, tmu
-		"b.head.Store(sched.AStore(7, 2, h))",
+		`sched.Obj(sched.ALoad(7, 3, b.head.Load()), "Clone").Clone()`, // atomic pointer: pseudo lock 3 = after Mutex, tmu, inner.imu
+		"b.head.Store(sched.AStore(7, 3, h))",
 		"sched.Get(8, b.dr) != nil",
+		"imu sched.Mutex",                             // mutex of the embedded struct
+		"i.cnt = sched.Put(9, sched.Get(9, i.cnt)+1)", // method of the embedded struct: same numbering
+		"i.tr = sched.Put(10, t)",
+		"b.inner.cnt = sched.Put(9, sched.Get(9, b.inner.cnt)+1)", // explicit path
+		"sched.Get(9, b.cnt)",                                     // promoted field
+		`sched.Get(10, b.tr).vals`,
 		`sched.Obj(sched.Get(6, b.index), "Find").Find(k)`,
 	} {
 		if !strings.Contains(string(src), frag) {
